@@ -22,7 +22,7 @@ Edit classes (the rule of the verifier they aim at):
   aluop           ALU operation 0..13, ALU <-> ALU64, register <-> immediate operand, BPF_END direction and class
   ldimm           LD_IMM64 pseudo source 0 1 2 7, map number 0 / other / k+1, upper half non-zero
   atomic          atomic operation field (add, fetch-add, or, xchg, invalid), STX <-> atomic
-  stimm / movimm  the stored / moved constant (keys of array-map lookups, helper flags)
+  const           the stored / moved constant (keys of array-map lookups, helper flags)
 """
 import hashlib
 import json
@@ -145,7 +145,7 @@ def candidates(insns, maps):
                 add("atomic", pc, "plain store -> atomic add", dict(i, op=(op & 0x1f) | 0xc0))
             if cl == 2:
                 for v in (0, 1, -1, imm + 1, 64):
-                    add("stimm", pc, f"imm {imm} -> {v}", with_imm(i, v))
+                    add("const", pc, f"imm {imm} -> {v}", with_imm(i, v))
         # ---- ALU -----------------------------------------------------------------------------------------
         if cl in (4, 7):
             code, isreg = op >> 4, bool(op & 8)
@@ -186,7 +186,7 @@ def candidates(insns, maps):
                                  2 ** 31 - 1, -2 ** 31}
                         for vs in vss:
                             vals |= {vs, vs - 1, vs - 4, vs - 8, -vs}
-                    cls_name = "movimm" if code == 11 else "imm"
+                    cls_name = "const" if code == 11 else "imm"
                     if code == 11:
                         vals = {0, 1, -1, imm + 1, 64}
                     for v in sorted(vals):
